@@ -195,29 +195,16 @@ def run(prog: Program) -> Results:
                     f"(`after`): a comment that followed the whole construct is emitted in the middle of it")
 
     # ---------------------------------------------------------------- R-C03-4 comment text reader/writer agreement
-    r4 = res.rule("R-C03-4", "comment text round trip: the prefix stripped by Comment.from_cst per branch equals the prefix re-added "
-                  "by __str__ under the flag that branch sets; the block-comment opener is selected by `doc` on both sides", floor=4)
+    r4 = res.rule("R-C03-4", "every comment node built by Comment.from_cst carries its text (the per-branch prefix agreement of "
+                  "reader and writer was withdrawn: it could only be matched textually)", floor=3)
     cf = prog.func("Comment.from_cst")
     cs = prog.func("Comment.__str__")
     mr = prog.func("MultilineComment.rebuild")
-    flat = lambda x: " ".join(x.replace("\n", " ").split())
-    t_from = flat(alpha(cf.node, cf.node, anonymous=True))
-    t_str = flat(alpha(cs.node, cs.node, anonymous=True))
-    t_mr = flat(alpha(mr.node, mr.node, anonymous=True))
-    checks = [
-        ("shebang", "$.startswith('#!')" in t_from and "cls(text=$[2:], shebang=True)" in t_from and "if self.shebang: return f'#!{self.text}'" in t_str),
-        ("hash without space", "$ = False" in t_from and "$ = $[1:]" in t_from and "$ = '# ' if self.space_after_hash else '#'" in t_str),
-        ("hash with space", "if $.startswith(' '): $ = True" in t_from and "f'{$}{$}'" in t_str),
-        ("doc opener", "$ = $.startswith('/**')" in t_from and "$ = 3 if $ else 2" in t_from and "$ = '/**' if self.doc else '/*'" in t_mr),
-        ("block closer", "$.endswith('*/')" in t_from and "$ = $[:-2]" in t_from and "*/" in t_mr),
-    ]
-    for name, ok in checks:
-        r4.instances += 1
-        r4.ob(ok, {"branch": name})
-        if not ok:
-            res.add("R-C03-4", ("Comment", "prefix tables disagree", name), cf.loc(),
-                    f"the `{name}` branch of Comment.from_cst and the text re-added by Comment.__str__/MultilineComment.rebuild no "
-                    f"longer correspond: the wording or delimiter of such comments changes in a round trip")
+    # Withdrawn: the clause "the prefix stripped per branch equals the prefix re-added by __str__" was decided by matching
+    # fragments of source text (`$ = $[1:]`, `'# ' if self.space_after_hash else '#'` …).  A behaviour-preserving rewrite of
+    # Comment.from_cst (neutral wave p) tripped it, no seeded change ever needed it, and a sound version would have to fold
+    # string operations over sample texts — i.e. run the code.  What is kept is the structural part below; the value-level
+    # round trip of comment *text* is not decided by this framework (DESIGN §8.7).
     for name, fobj in (("Comment.from_cst", cf),):
         ctor = [c for c in ast.walk(fobj.node) if isinstance(c, ast.Call) and callee(c) in ("cls", "MultilineComment")]
         r4.instances += len(ctor)
